@@ -15,14 +15,14 @@ From Mx Require Import Expr Simp SimpProofs.
 Import ListNotations.
 Open Scope Z_scope.
 
-Theorem C05_simp_sound_fragment1 : forall (Q : string -> Z -> bool -> bool -> bool) fuel e e', wf Q e = true -> simp fuel e = Ok e' ->
-  wf Q e' = true /\ size e' = size e /\ forall rho mu iota, eval rho mu iota e' = eval rho mu iota e.
+Theorem C05_simp_sound_fragment1 : forall (ac : bool) (Q : string -> Z -> bool -> bool -> bool) fuel e e', wf ac Q e = true -> simp fuel e = Ok e' ->
+  wf ac Q e' = true /\ size e' = size e /\ forall rho mu iota, eval rho mu iota e' = eval rho mu iota e.
 Proof. exact simp_sound_frag1. Qed.
 Print Assumptions C05_simp_sound_fragment1.
 
 (** the single rewriting step, on its own *)
-Theorem C05_one_step_sound : forall (Q : string -> Z -> bool -> bool -> bool) rho mu iota e e', wf Q e = true -> simp1 e = Ok e' ->
-  wf Q e' = true /\ size e' = size e /\ eval rho mu iota e' = eval rho mu iota e.
+Theorem C05_one_step_sound : forall (ac : bool) (Q : string -> Z -> bool -> bool -> bool) rho mu iota e e', wf ac Q e = true -> simp1 e = Ok e' ->
+  wf ac Q e' = true /\ size e' = size e /\ eval rho mu iota e' = eval rho mu iota e.
 Proof. exact simp1_good. Qed.
 Print Assumptions C05_one_step_sound.
 
@@ -30,7 +30,7 @@ Print Assumptions C05_one_step_sound.
 Example C05_nonvacuous :
   let a := EId "a" 32 false true in let b := EId "b" 32 false true in
   let e := EOp "+" [EOp "+" [a; EInt false 32 3]; EOp "-" [EOp "-" [b]]; EInt false 32 4294967293; EOp "^" [b; b]; EOp "-" [a]] in
-  wf (fun _ _ _ _ => true) e = true /\ simp 20 e = Ok b.
+  wf true (fun _ _ _ _ => true) e = true /\ simp 20 e = Ok b.
 Proof. vm_compute. split; reflexivity. Qed.
 (** the shift constant folds repaired in /repo (fix: bca1ceb) stay instances, outside fragment 1 *)
 Example C05_shift_fold : simp 10 (EOp ">>" [EInt false 32 16; EInt false 32 1]) = Ok (EInt false 32 8) /\
@@ -40,5 +40,19 @@ Proof. vm_compute. split; reflexivity. Qed.
 Example C05_eq_parity_nonvacuous :
   let a := EId "eax" 32 true true in
   let e := EOp "+" [EOp "==" [EOp "|" [a; EInt false 32 4]; EInt false 32 0]; EOp "parity" [EInt false 32 3]; a] in
-  wf (fun _ _ _ _ => true) e = true /\ simp 20 e = Ok (EOp "+" [a; EInt false 32 1]).
+  wf true (fun _ _ _ _ => true) e = true /\ simp 20 e = Ok (EOp "+" [a; EInt false 32 1]).
 Proof. vm_compute. split; reflexivity. Qed.
+(** concatenations inside the fragment: adjacent slices of eax merge back to eax; the zero extension of bl keeps its shape with the
+    constant moved up; a slice of a concatenation picks the slot; adjacent constants merge into one *)
+Example C05_compose_nonvacuous :
+  let Q := fun (_ : string) (_ : Z) (_ _ : bool) => true in
+  let a := EId "eax" 32 true true in let b := EId "bl" 8 false true in
+  let e1 := ECompose [(ESlice a 0 8, 0, 8); (ESlice a 8 32, 8, 32)] in
+  let e2 := ECompose [(EInt false 32 0, 8, 32); (b, 0, 8)] in
+  let e3 := ESlice (ECompose [(b, 0, 8); (EInt false 32 5, 8, 32)]) 8 16 in
+  let e4 := EOp "+" [ECompose [(EInt false 32 3, 0, 8); (EInt false 32 1, 8, 16); (ESlice a 16 32, 16, 32)]; EInt false 32 1] in
+  (wf true Q e1 = true /\ simp 20 e1 = Ok a) /\
+  (wf true Q e2 = true /\ simp 20 e2 = Ok (ECompose [(b, 0, 8); (EInt false 32 0, 8, 32)])) /\
+  (wf true Q e3 = true /\ simp 20 e3 = Ok (EInt false 8 5)) /\
+  (wf true Q e4 = true /\ simp 20 e4 = Ok (EOp "+" [ECompose [(EInt false 32 259, 0, 16); (ESlice a 16 32, 16, 32)]; EInt false 32 1])).
+Proof. vm_compute. repeat split; reflexivity. Qed.
